@@ -24,6 +24,10 @@ type findScen struct {
 	U      findDir   `json:"u"`      // unrelated directory next to the chain
 	Start  int       `json:"start"`  // level, -1 = unrelated
 	Stop   int       `json:"stop"`
+	// spelling of the two paths handed to Find: clean (default) | slash | dotted | rel (relative to Cwd)
+	StartSp string `json:"startSp"`
+	StopSp  string `json:"stopSp"`
+	Cwd     int    `json:"cwd"` // level of the working directory, -1 = unrelated, -2 = the file-system root; used when a spelling is rel
 }
 
 type findRec struct {
@@ -142,14 +146,30 @@ func populate(dir string, d findDir) error {
 	return nil
 }
 
+// spell returns another spelling of the directory p (Find.tla: Spellings).
+func spell(p, sp, cwd string) string {
+	switch sp {
+	case "slash":
+		return p + "/"
+	case "dotted":
+		return filepath.Dir(p) + "/./" + filepath.Base(p) + "/../" + filepath.Base(p)
+	case "rel":
+		if r, err := filepath.Rel(cwd, p); err == nil {
+			return r
+		}
+	}
+	return p
+}
+
 func findHandle(root string, line []byte) any {
 	var s findScen
 	if err := json.Unmarshal(line, &s); err != nil {
 		return map[string]any{"outcome": "driver-error", "err": err.Error()}
 	}
+	os.Chdir("/")
 	os.RemoveAll(filepath.Join(root, "c"))
 	os.RemoveAll(filepath.Join(root, "u"))
-	paths := map[int]string{-1: filepath.Join(root, "u")}
+	paths := map[int]string{-1: filepath.Join(root, "u"), -2: "/"}
 	if err := populate(paths[-1], s.U); err != nil {
 		return map[string]any{"id": s.ID, "outcome": "driver-error", "err": err.Error()}
 	}
@@ -168,7 +188,15 @@ func findHandle(root string, line []byte) any {
 				rec.Outcome, rec.Err = "panic", fmt.Sprint(r)
 			}
 		}()
-		got, err := file.Find(nopLogger{}, paths[s.Start], paths[s.Stop])
+		startP, stopP := paths[s.Start], paths[s.Stop]
+		if s.StartSp == "rel" || s.StopSp == "rel" {
+			if cerr := os.Chdir(paths[s.Cwd]); cerr != nil {
+				rec.Outcome, rec.Err = "driver-error", cerr.Error()
+				return
+			}
+		}
+		startP, stopP = spell(startP, s.StartSp, paths[s.Cwd]), spell(stopP, s.StopSp, paths[s.Cwd])
+		got, err := file.Find(nopLogger{}, startP, stopP)
 		if err != nil {
 			rec.Outcome, rec.Err = "notfound", err.Error()
 			return
